@@ -286,6 +286,8 @@ func (fx *FuncCtx) iteVal(c Term, a, b Val) Val {
 		return n
 	case VBufPtr:
 		// same pointer expected
+	case VOpaque:
+		return a
 	}
 	panic(unsupported{fmt.Sprintf("cannot merge values %T and %T", a, b)})
 }
